@@ -1,6 +1,6 @@
 (* C07 — Inbound QoS2 is delivered exactly once per exchange.  Statements only; proofs in
    Conn/Session.v, Conn/Qos2Inv.v, Conn/Qos2Inv2.v, Conn/Qos2Dup.v and Conn/Qos2Sub.v.  Nothing else may be added to this file. *)
-From MQ Require Import Base.Prelude Alloc.Alloc Alloc.AllocProofs Conn.Types Conn.ConnRecord Conn.Step Corr.ConnTrace Conn.Run Conn.Session Conn.Qos2Inv Conn.Qos2Inv2 Conn.Qos2Dup Conn.Qos2Sub.
+From MQ Require Import Base.Prelude Alloc.Alloc Alloc.AllocProofs Conn.Types Conn.ConnRecord Conn.Step Corr.ConnTrace Conn.Run Conn.Session Conn.Qos2Inv Conn.Qos2Inv2 Conn.Qos2Dup Conn.Qos2Sub Conn.AscQos2.
 
 (* v3.1.1, every state: a retransmission of a QoS 2 PUBLISH whose identifier is in the handled
    set is not notified again, and the identifier stays handled *)
@@ -23,6 +23,17 @@ Theorem C07_pubrel_forgets : forall g c v p hi,
   end.
 Proof. exact pubrel_forgets. Qed.
 Print Assumptions C07_pubrel_forgets.
+
+(* ... and the ordering hypothesis is an invariant of every history of a fresh object whose inbound QoS 2 identifiers
+   and restored identifiers are within 1..M (AscQos2), so in every such state a PUBREL forgets the identifier *)
+Theorem C07_pubrel_forgets_after_history : forall M g v ops c v' p,
+  ids_history_ok M ops -> run_state g (conn_new g v) ops = Some c ->
+  match recv_pubrel g c v' (PROk p) with
+  | Ok (c', _) => mem (k_pid p) (c_qos2 c') = false
+  | Panic _ => True
+  end.
+Proof. exact pubrel_forgets_after_history. Qed.
+Print Assumptions C07_pubrel_forgets_after_history.
 
 (* an automatically generated acknowledgement notifies nothing and leaves the handled set alone *)
 Theorem C07_send_ack_quiet : forall c p,
